@@ -93,3 +93,70 @@ func init() {
 		o.def("searchSkipsTombstonedResults", "Bool", lbool(ok), "Hnsw.Search skips a vertex that isDeleted() when it assembles its result (the only place result items are produced)")
 	})
 }
+
+// C01 / C07 / C13: a search writes nothing that another search (or a writer) can see. In the read path
+// (Search, greedyClosestNeighbor, searchLevel, selectNeighbors, selectNeighborsHeuristic) every
+// assignment goes to a local variable or into a local map / slice, and the only callees are the
+// read-only ones of the unchanged code (queues are local values): a visited mark kept on the vertex, a
+// counter on the index, a cache — anything shared — makes simultaneous searches interfere.
+func init() {
+	extractors = append(extractors, func(o *out) {
+		f := parseFile("index/hnsw.go")
+		readPath := []string{"Search", "greedyClosestNeighbor", "searchLevel", "selectNeighbors", "selectNeighborsHeuristic"}
+		allowed := map[string]bool{}
+		for _, n := range []string{"Distance", "Id", "Len", "LoadPointer", "MaxInt", "Metadata", "MinInt", "NewMaxPriorityQueue", "NewMinPriorityQueue",
+			"NewPriorityQueueItem", "Peek", "Pop", "Priority", "Push", "RLock", "RUnlock", "Reverse", "ToSlice", "Value", "append", "int", "isDeleted",
+			"len", "make", "uint", "float32", "Err", "Done", "greedyClosestNeighbor", "searchLevel", "selectNeighbors", "selectNeighborsHeuristic"} {
+			allowed[n] = true
+		}
+		ok := true
+		for _, fn := range readPath {
+			fd := funcDecl(f, "Hnsw", fn)
+			if fd == nil {
+				ok = false
+				continue
+			}
+			ast.Inspect(fd.Body, func(n ast.Node) bool {
+				switch x := n.(type) {
+				case *ast.AssignStmt:
+					for _, l := range x.Lhs {
+						root := l
+						for {
+							if ix, isIx := root.(*ast.IndexExpr); isIx {
+								root = ix.X
+								continue
+							}
+							break
+						}
+						if _, isId := root.(*ast.Ident); !isId { // x.f = …, x.f[i] = …, *p = …
+							ok = false
+							debugf("searchPath: assignment to %s in %s", norm(l), fn)
+						}
+					}
+				case *ast.IncDecStmt:
+					if _, isId := x.X.(*ast.Ident); !isId {
+						ok = false
+					}
+				case *ast.CallExpr:
+					name := ""
+					switch c := x.Fun.(type) {
+					case *ast.SelectorExpr:
+						name = c.Sel.Name
+					case *ast.Ident:
+						name = c.Name
+					case *ast.ParenExpr: // a conversion such as (*hnswVertex)(…)
+						return true
+					}
+					if !allowed[name] {
+						ok = false
+						debugf("searchPath: call of %s in %s", name, fn)
+					}
+				case *ast.GoStmt:
+					ok = false
+				}
+				return true
+			})
+		}
+		o.def("searchPathWritesNothingShared", "Bool", lbool(ok), "the read path of the index (Search, greedyClosestNeighbor, searchLevel, selectNeighbors*) assigns to local variables only and calls nothing but the read-only callees of the unchanged code")
+	})
+}
